@@ -18,7 +18,7 @@ TRUSTED = [
     "translator: tools/symtorch.py and the path-condition scalar of tr_units/regs.py (lame_parameters guards taken on the "
     "'valid elastic constant' side); flow_derivatives / spatial_derivatives are replaced by symbols when the coefficient "
     "structure is traced",
-    "hand-written stencil model coq/Model/RegStencil.v (forward_central_backward differences, zero-padded [1,w,1] smoothing of "
+    "hand-written stencil model coq/Model/RegStencil.v (forward_central_backward differences, replicate-padded [1,w,1] smoothing of "
     "'sobel'/'prewitt') -- tied by this run's correspondence only",
     "modelled not verified: float rounding; torch kernels conv1d / F.pad inside spatial_derivatives; math.sqrt (enters as r with r*r = radicand)",
 ]
@@ -272,12 +272,10 @@ def replay(ctx, data):
 
 
 MANIFEST_ENTRY = {
-    "text": "Theorems (Coq) about a stencil model of spatial_derivatives (forward_central_backward differences; zero-padded [1,w,1] "
+    "text": "Theorems (Coq) about a stencil model of spatial_derivatives (forward_central_backward differences; replicate-padded [1,w,1] "
             "cross smoothing of 'sobel'/'prewitt') on lattices of any dimension and shape, over every field of characteristic 0 (signs "
-            "over R): the scheme is exact on affine functions at every lattice point; bending and curvature vanish on affine fields and "
-            "are unchanged by adding one wherever the affine field's second differences vanish -- everywhere for "
-            "forward_central_backward, two samples from the boundary for the default sobel (D = 2, 3; the boundary failure is a proved "
-            "refutation); diffusion / TV / divergence / elasticity vanish on translations and take their analytic values on affine "
+            "over R): every derivative mode is exact on affine functions at every lattice point; bending and curvature vanish on affine fields and "
+            "are unchanged by adding one, everywhere, for every mode including the default sobel; diffusion / TV / divergence / elasticity vanish on translations and take their analytic values on affine "
             "fields; non-negativity; quadratic (TV: absolute) homogeneity; spacing powers k^-2 / k^-4; reductions; lame_parameters: "
             "each executable keyword pair returns (lambda, mu) satisfying the defining relations, except (lambda, E) which is refuted "
             "against the proved closed form; denormalize_flow factors per align_corners. Tie: lame table, loss coefficient structure "
